@@ -170,7 +170,15 @@ func TestC13_Orders(t *testing.T) {
 		nBase := rapid.IntRange(3, 5).Draw(rt, "nBase")
 		for i := 0; i < nBase; i++ {
 			var s string
-			if rapid.IntRange(0, 3).Draw(rt, fmt.Sprintf("b%dKind", i)) == 0 {
+			if dups := tb.DupIDs(); len(dups) > 0 && rapid.IntRange(0, 7).Draw(rt, fmt.Sprintf("b%dDup", i)) == 0 {
+				// ids listed at two table positions and their families: a recorded finding as far as their
+				// static behaviour goes, but their answers must still not depend on history
+				rel := tb.Relatives(rapid.SampledFrom(dups).Draw(rt, fmt.Sprintf("b%dDupID", i)))
+				s = rapid.SampledFrom(rel).Draw(rt, fmt.Sprintf("b%dDupRel", i))
+				for _, r := range rel {
+					pool = append(pool, r, r+"+")
+				}
+			} else if rapid.IntRange(0, 3).Draw(rt, fmt.Sprintf("b%dKind", i)) == 0 {
 				// deprecated / folding ids and the open spellings are where lookahead-dependent lookups live
 				s = rapid.SampledFrom(append(append([]string{}, oddSeeds...), "GPL-2.0", "LGPL-3.0", "AGPL-1.0", "GFDL-1.3", "eCos-2.0", "GPL-2.0-with-GCC-exception", "Nunit")).Draw(rt, fmt.Sprintf("b%dOdd", i))
 			} else {
@@ -179,7 +187,6 @@ func TestC13_Orders(t *testing.T) {
 			pool = append(pool, s)
 			pool = append(pool, neighbours(rt, s, fmt.Sprintf("b%d", i))...)
 		}
-		_ = tb
 		var w Workload
 		for _, s := range pool {
 			w.Calls = append(w.Calls,
@@ -187,6 +194,23 @@ func TestC13_Orders(t *testing.T) {
 				PCall{Fn: "extract", Expr: mkStr(s)},
 				PCall{Fn: "satisfies", Expr: mkStr(s), List: []StrCase{mkStr("MIT"), mkStr(pool[0])}},
 				PCall{Fn: "satisfies", Expr: mkStr(pool[0]), List: []StrCase{mkStr(s)}})
+		}
+		// every pair of short strings against each other (single-term matching must not depend on history)
+		var short []string
+		seenS := map[string]bool{}
+		for _, s := range pool {
+			if len(s) <= 40 && !strings.Contains(s, " AND ") && !strings.Contains(s, " OR ") && !seenS[s] {
+				seenS[s] = true
+				short = append(short, s)
+			}
+		}
+		if len(short) > 14 {
+			short = rapid.Permutation(short).Draw(rt, "shortSel")[:14]
+		}
+		for _, a := range short {
+			for _, b := range short {
+				w.Calls = append(w.Calls, PCall{Fn: "satisfies", Expr: mkStr(a), List: []StrCase{mkStr(b)}})
+			}
 		}
 		for i, n := 0, rapid.IntRange(2, 6).Draw(rt, "nLists"); i < n; i++ {
 			l := rapid.SliceOfN(rapid.SampledFrom(pool), 2, 5).Draw(rt, fmt.Sprintf("l%d", i))
